@@ -264,7 +264,7 @@ RING_FUNCS = ['jwks_create', 'jwks_load', 'jwks_load_strn', 'jwks_create_strn', 
 
 
 def ring_q(name, defines, unwind=9, budget=600, tiers=('quick', 'thorough'), checks='memsafe-noconv', bounds=None):
-    d = ['VJ_MAXM=7', 'VJ_SLEN=6', 'VJ_KLEN=7', 'VF_CAP=16', 'VJ_CHECK_DEAD'] + list(defines)
+    d = ['VJ_MAXM=5', 'VJ_SLEN=6', 'VJ_KLEN=7', 'VF_CAP=16', 'VJ_CHECK_DEAD'] + list(defines)
     return Query(name, 'keyring.c', RING_UNITS, defines=d, unwind=unwind, checks=checks, budget=budget, tiers=tiers,
                  bounds=bounds or {})
 
@@ -297,20 +297,47 @@ class C07(Spec):
         routes = ['create', 'load', 'load_strn', 'fromfile', 'fromfp', 'create_strn']
         shapes = ['notjson', 'nonobject', 'single', 'keys_nonarray', 'keys0', 'keys1', 'keys2']
         b = {'document': 'not JSON | any non-object top level | single JWK object | keys of any non-array type | keys array of 0,1,2 elements of any type',
-             'JWK members': 'kty,k,alg,use,key_ops,kid each absent or of any JSON type; strings <= 6 arbitrary bytes'}
+             'JWK members': 'kty,k,alg,kid each absent or of any JSON type (use, key_ops: query C07.values); strings <= 6 arbitrary bytes'}
         qs = []
         for sh, sn in enumerate(shapes):
             for rt, rn in enumerate(routes):
                 for pre in (0, 1):
                     if pre and rn != 'load':
                         continue
-                    if tier == 'quick' and rn in ('create_strn', 'load_strn', 'fromfp') and sn not in ('keys1', 'notjson'):
+                    if tier == 'quick' and not (rn == 'create' or sn == 'single'):
                         continue
                     q = ring_q('C07.shape.%s.%s%s' % (sn, rn, '.pre' if pre else ''),
                                ['SIDE_LOAD', 'SHAPE=%d' % sh, 'ROUTE=%d' % rt, 'PRE=%d' % pre], bounds=b)
                     q.unwindset = {f + '.0': 5 for f in LIST_LOOPS}
                     qs.append(q)
+        qs.append(Query('C07.values', 'keyring.c', RING_UNITS, defines=['SIDE_VALUES', 'VJ_MAXM=4', 'VJ_SLEN=10', 'VF_CAP=16'],
+                        unwind=13, checks='memsafe-noconv', budget=600,
+                        bounds={'members': 'alg, use, key_ops, kid each absent or of any JSON type; key_ops array of <= 2 elements of any type; strings <= 10 bytes'}))
         return qs
 
 
-PROPS.update({'C07': C07(), 'C16': C16(), 'C15': C15(), 'C12': C12(), 'C10': C10(), 'C11': C11(), 'C13': C13(), 'C19': C19(), 'C09': C09(), 'C04': C04(), 'C02': C02(), 'C03': C03(), 'C06': C06(), 'C14': C14()})
+class C18(Spec):
+    level = 'other'
+    functions = CORE_FUNCS + BUILDER_FUNCS
+
+    def queries(self, tier, bld):
+        from . import c18
+        import os
+        qs = []
+        for nm, units in (('verify', CORE_UNITS), ('generate', BUILDER_UNITS)):
+            bld.build_units(units)
+            hdr = os.path.join(bld.gen, 'c18_gen.h' if nm == 'verify' else 'c18b_gen.h')
+            overrides, listed = c18.instrument(bld, units, hdr, nm)
+            if nm == 'verify':
+                q = core_q('C18.footprint.verify.L12', ['PROP_C18'], L=12, budget=600)
+            else:
+                q = builder_q('C18.footprint.generate', ['PROP_C18'])
+            q.includes = [bld.gen]
+            q.unit_override = overrides
+            q.unwindset = {}
+            q.bounds['statics enumerated'] = [x['name'] + (' (local to %s)' % x['local_in'] if x['local_in'] else '') for x in listed]
+            qs.append(q)
+        return qs
+
+
+PROPS.update({'C18': C18(), 'C07': C07(), 'C16': C16(), 'C15': C15(), 'C12': C12(), 'C10': C10(), 'C11': C11(), 'C13': C13(), 'C19': C19(), 'C09': C09(), 'C04': C04(), 'C02': C02(), 'C03': C03(), 'C06': C06(), 'C14': C14()})
